@@ -19,6 +19,15 @@ BUF_FREE = (" Plus free-running concurrent Buffer programs in a bubble (buffree)
             "starting between the eviction counts around its creation, exact replay after rollback, no Get error, clean close, no goroutine left.")
 
 
+def regress(prof, race=False):
+    """replay tier: plain deterministic regression checks of the defects this framework found and /repo repaired"""
+    j = {"name": "regress", "test": "TestRegress", "checks": {"quick": 1, "thorough": 1}, "shards": {"quick": 1, "thorough": 1},
+         "env": {"VKIT_PROFILE": prof}}
+    if race:
+        j["race"] = True
+    return j
+
+
 def buffree(prof, quick, thorough):
     return {"name": "buffree", "test": "TestBufFree", "checks": {"quick": quick, "thorough": thorough},
             "shards": {"quick": 8, "thorough": 16}, "env": {"VKIT_PROFILE": prof}, "stall_sig": prof + "/stall"}
@@ -126,7 +135,8 @@ CONFIG = {
                  "every target at every quiescent point); Publish pending exactly while a member is neither delivered nor cancelled and the publish ctx is live; nothing after Unsubscribe; "
                  "duplicate Subscribe / unmatched Unsubscribe panic and leave later deliveries unchanged; no goroutine left. non-trivial = a publish with |E|>=3 where a context-guarded member is "
                  "cancelled while others are pending and a later delivery follows, or a nil-valued publish with |E|>=1; distinct = hash of the op trace."),
-        "jobs": [{"name": "notifier", "test": "TestC15Notifier", "checks": {"quick": 8000, "thorough": 1000000}, "shards": {"quick": 8, "thorough": 16}, "env": {"VKIT_PROFILE": "C15"}}],
+        "jobs": [{"name": "notifier", "test": "TestC15Notifier", "checks": {"quick": 8000, "thorough": 1000000}, "shards": {"quick": 8, "thorough": 16}, "env": {"VKIT_PROFILE": "C15"}},
+                 regress("C15")],
     },
     "C16": {
         "rule": ("rapid engine over CombineContext / ConflatedContext / ChainAfterFunc in a synctest bubble: 0-5 input contexts each carrying a distinct value (std cancel, deadline in virtual "
@@ -181,6 +191,7 @@ CONFIG = {
                  "(pairs of overlapping methods are listed in the class histogram); distinct = hash of the generated program."),
         "assumptions": ["dynamic happens-before race detection: only executed interleavings are judged", "x86-64 memory model as exercised by the Go race detector"],
         "jobs": [
+            regress("C11", race=True),
             {"name": "race_programs", "test": "TestC11RacePrograms", "race": True, "checks": {"quick": 2400, "thorough": 500000}, "shards": {"quick": 8, "thorough": 16}},
             {"name": "race_pubsub", "test": "TestPubSubFree", "race": True, "checks": {"quick": 6000, "thorough": 400000}, "shards": {"quick": 4, "thorough": 16}, "env": {"VKIT_PROFILE": "C11"}},
             {"name": "race_caster", "test": "TestC08CasterFree", "race": True, "checks": {"quick": 4000, "thorough": 200000}, "shards": {"quick": 2, "thorough": 8}},
@@ -310,6 +321,7 @@ CONFIG = {
             {"name": "callable", "test": "TestC19Callable",
              "checks": {"quick": 40000, "thorough": 30000000},
              "shards": {"quick": 4, "thorough": 16}},
+            regress("C19"),
         ],
     },
 }
